@@ -19,6 +19,8 @@
                              (g+c)^5 dk^3 = 1 and c^5 T^3 = 1 (relative 1e-9)
     ssa <up|down> <n> <a>    oracle Sivia–Skilling factor, checked against the Taylor
                              enclosure of exp(±1/n) (squared first for diagonal proposals)
+    reset                    `_reset_adaptation` (Chain.reset_proposals): the clock restarts at the current
+                             proposal step, the numerical state goes back to the one given by `fam` (no answer)
     step acc=<0|1> [ar=<q>] [vars=<csv>] [x=<csv>] [w=<csv>] [el=<q>] [ek=<q>] [nm=<q>] [sl=<csv>]
   Answers, one per `step`:
     st raw=<_nsteps> upd=<0|1> dk=<dk> ev=<#absorbed> amb=<0|1> <state of the family>
@@ -92,9 +94,18 @@ def Mach.clock : Mach → PropSt
   | .veitch _ _ _ a => a.clock | .ss _ _ _ _ a => a.clock | .at _ _ a => a.clock
   | .eig _ _ _ a => a.clock | .vmf _ a => a.clock
 
+/-- `Ad.reset` with the initial numerical state kept from the `fam` line. -/
+def Mach.resetTo (cur : Mach) : Mach → Mach
+  | .veitch n xi deltas a0 => .veitch n xi deltas (Ad.reset a0.num { clock := cur.clock, num := a0.num })
+  | .ss m diag xi cap a0 => .ss m diag xi cap (Ad.reset a0.num { clock := cur.clock, num := a0.num })
+  | .at n xi a0 => .at n xi (Ad.reset a0.num { clock := cur.clock, num := a0.num })
+  | .eig n xi tol a0 => .eig n xi tol (Ad.reset a0.num { clock := cur.clock, num := a0.num })
+  | .vmf xi a0 => .vmf xi (Ad.reset a0.num { clock := cur.clock, num := a0.num })
+
 structure DState where
   cfg : Option PropCfg := none
   mach : Option Mach := none
+  mach0 : Option Mach := none      -- as built by `fam`: what a reset restores
   gains : List (Int × Rat) := []
   ssUp : List (Nat × Rat) := []
   ssDown : List (Nat × Rat) := []
@@ -320,7 +331,7 @@ def handleLine (st : DState) (line : String) : DState × List String :=
       | none => ({ st with dead := true }, [s!"bad-op {line}"])
       | some c =>
         match parseFam c rest with
-        | .ok m => ({ st with mach := some m }, [])
+        | .ok m => ({ st with mach := some m, mach0 := some m }, [])
         | .error e => ({ st with dead := true }, [e])
     | ["gain", dk, g] =>
       match dk.toInt?, parseRat g, st.cfg with
@@ -344,6 +355,10 @@ def handleLine (st : DState) (line : String) : DState × List String :=
         | none => (if up then { st with ssUp := (n, a) :: st.ssUp } else { st with ssDown := (n, a) :: st.ssDown }, [])
         | some e => ({ st with dead := true }, [s!"bad-oracle {e}"])
       | _, _, _ => ({ st with dead := true }, [s!"bad-op {line}"])
+    | ["reset"] =>
+      match st.mach, st.mach0 with
+      | some m, some m0 => ({ st with mach := some (m.resetTo m0) }, [])
+      | _, _ => ({ st with dead := true }, [s!"bad-op {line}"])
     | "step" :: rest =>
       match stepMach st rest with
       | .ok (m, out) => ({ st with mach := some m }, [out])
